@@ -1705,12 +1705,9 @@ class Interp:
 
     def setitem(self, o, i, v):
         if type(o) is NDArr:
-            if has_sym(i) and not isinstance(i, (tuple, slice)):
-                raise Unsupported("symbolic index assignment into ndarray")
-            try:
-                o.setitem(i, v)
-            except IndexError as e:
-                raise PyExc(IndexError, e.args)
+            from . import libmodels
+
+            libmodels.nd_setitem(self, o, i, v)
             return
         if type(o) is SObj:
             f = self.lookup_class_attr(o.cls, "__setitem__")
